@@ -37,6 +37,13 @@ EMPTY_COMP_PREFIXES = [(C(b'a'), C(b'')), (C(b'a'), C(b''), C(b's')), (C(b''),)]
 LONG = {n: C(bytes([65 + n % 26]) * n) for n in (252, 253, 254, 255, 256)}
 LONG_COMP_PREFIXES = [(C(b'a'), LONG[n]) for n in LONG] + [(LONG[253],), (C(b'a'), LONG[254], C(b's'))]
 LONG_COMP_NAMES = [(C(b'a'), LONG[n], C(b'x')) for n in LONG] + [(LONG[253], C(b'q')), (C(b'a'), LONG[254], C(b's'), C(b'y')), (C(b'a'), LONG[255])]
+# prefixes that END in an implicit-digest component (an application that serves "by full name"), a generic component with the
+# same 32 octets beside it; Interests with exactly those names, longer ones and the names without the last component
+DG = rc.comp(1, bytes(range(32)))
+DG_GENERIC = C(bytes(range(32)))
+DIGEST_PREFIXES = [(C(b'a'), C(b'b'), DG), (C(b'a'), DG), (C(b'a'), C(b'b'), DG_GENERIC), (DG,)]
+DIGEST_NAMES = [(C(b'a'), C(b'b'), DG), (C(b'a'), DG), (C(b'a'), C(b'b'), DG_GENERIC), (DG,), (C(b'a'), C(b'b'), DG, C(b'x')),
+                (C(b'a'), C(b'b'), rc.comp(1, bytes(32))), (C(b'e'), DG)]
 EMPTY_COMP_NAMES = [(C(b'a'), C(b''), C(b's'), C(b'x')), (C(b'a'), C(b's'), C(b'x')), (C(b'a'), C(b''), C(b'y')), (C(b''), C(b'q')), (C(b'a'), C(b's'))]
 
 
@@ -877,8 +884,8 @@ def run(ctx):
         ops = []
         for _ in range(rng.randint(4, 25)):
             k = rng.random()
-            pool_p = PREFIXES + (EMPTY_COMP_PREFIXES if i % 2 else []) + (LONG_COMP_PREFIXES if i % 5 == 2 else [])
-            pool_n = INT_NAMES + (EMPTY_COMP_NAMES if i % 2 else []) + (LONG_COMP_NAMES if i % 5 == 2 else [])
+            pool_p = PREFIXES + (EMPTY_COMP_PREFIXES if i % 2 else []) + (LONG_COMP_PREFIXES if i % 5 == 2 else []) + (DIGEST_PREFIXES if i % 7 == 3 else [])
+            pool_n = INT_NAMES + (EMPTY_COMP_NAMES if i % 2 else []) + (LONG_COMP_NAMES if i % 5 == 2 else []) + (DIGEST_NAMES * 2 if i % 7 == 3 else [])
             if k < 0.35:
                 ops.append(('attach', rng.choice(pool_p)))
             elif k < 0.40 and kind == 'v2':
@@ -938,11 +945,19 @@ def run(ctx):
                 ops += [('detach', gone)] + [('interest', d + (C(b'x'),)) for d in (D1, D2, D3)] + [('interest', d) for d in (D1, D2, D3)]
                 ops += [('attach', gone)] + [('interest', d + (C(b'y'),)) for d in (D1, D2, D3)]
                 run_history(ctx, rng, kind, ops, 'same-depth-template')
+    # prefixes that end in an implicit-digest component
+    for kind in kinds:
+        for sub in ((0,), (0, 1), (1, 2), (0, 1, 2, 3), (3,)):
+            ops = [('attach', PREFIXES[1])] + [('attach', DIGEST_PREFIXES[j]) for j in sub]
+            rng.shuffle(ops)
+            ops += [('interest', n) for n in DIGEST_NAMES] + [('detach', DIGEST_PREFIXES[sub[0]])] + [('interest', n) for n in DIGEST_NAMES]
+            run_history(ctx, rng, kind, ops, 'digest-ended-prefix-template')
+            ctx.event('prefix-ending-in-an-implicit-digest-component')
     if ctx.shard == 0:
         check_burst(ctx, rng)
     check_reply(ctx, rng)
     check_reentrant(ctx, rng)
-    for k in ('reply-after-a-step-of-the-wall-clock', 'announcement-given-up-for-a-prefix-that-has-a-handler', 'attach-of-a-falsy-callable-object', 'interest-whose-handler-raises', 'inside-handler:attach', 'inside-handler:detach', 'inside-handler:detach-self', 'inside-handler:attach-occupied'):
+    for k in ('prefix-ending-in-an-implicit-digest-component', 'reply-after-a-step-of-the-wall-clock', 'announcement-given-up-for-a-prefix-that-has-a-handler', 'attach-of-a-falsy-callable-object', 'interest-whose-handler-raises', 'inside-handler:attach', 'inside-handler:detach', 'inside-handler:detach-self', 'inside-handler:attach-occupied'):
         ctx.need_event(k)
     for k in ('attach', 'detach', 'duplicate-attach', 'interest-hit', 'interest-miss', 'reply-sent', 'reply-late', 'attach-with-delivery-options',
               'reconnect-with-handlers-attached', 'register-without-handler-on-free-prefix', 'duplicate-route-declaration',
